@@ -64,6 +64,11 @@ def special_files():
     out.append(("fatal2.c", "int\tmain(void)\n{\n\treturn (0);\n}\n) )"))
     out.append(("many.c", h("many.c") + "".join(f"\nint\tf{i}(void)\n{{\n\treturn ({i});\n}}\n" for i in range(7))))
     out.append(("vars.c", h("vars.c") + "\nint\tf(int aa, int bb)\n{\n\tint\tcc;\n\tint\tdd;\n\n\tcc = aa;\n\tdd = bb;\n\treturn (cc + dd);\n}\n"))
+    # the same name, other content (the same characters at the same places play other roles): anything remembered per
+    # name or per position would answer for the wrong file
+    out.append(("calc.c", "int\tf(int aaa, int b)\n{\n\tint\tn;\n\n\tn = aaa * b;\n\treturn (n & b);\n}\n"))
+    out.append(("calc.c", "int\tf(int a, int *b)\n{\n\tint\tn;\n\n\tn = a - *b;\n\treturn (n, &b);\n}\n"))
+    out.append(("calc.c", "int\tf(int a, int *b)\n{\n\tint\tn;\n\n\tn = (a)*b [0];\n\treturn (n);\n}\n"))
     out.append(("defs.c", "#define second_value (1 + 2)\n#define F(x) (x)\n\nint\tg_d = second_value;\n"))
     out.append(("iff.c", "#if 1\n# define A 1\n#elif 2\n# define A 2\n#endif\n\nint\tg_i = A;\n"))
     out.append(("utype.h", h("utype.h") + "\n#ifndef UTYPE_H\n# define UTYPE_H\n\ntypedef struct s_a\n{\n\tint\tx;\n}\tt_a;\n\n#endif\n"))
@@ -100,6 +105,16 @@ def run(res, tier, br, model_ok=True, search=False):
                 leaves_state = fam[sp0 + i][0] in ("ppfatal.c", "ppbad.c", "fatal.c", "fatal2.c", "pp.c")
                 if i != j and (big or leaves_state or (i + j) % 3 == 0):
                     hist.append([sp0 + i, sp0 + j])
+        # a program and a variant of it under the same name, both orders
+        byname = {}
+        for i, (nm, _) in enumerate(fam):
+            byname.setdefault(nm, []).append(i)
+        for nm, idxs in byname.items():
+            if len(idxs) >= 2:
+                for a in idxs:
+                    for b in idxs:
+                        if a != b and (big or rng.random() < 0.5 or nm == "calc.c"):
+                            hist.append([a, b])
         hres = pool.map(_w, [([fam[i] for i in seq], None) for seq in hist])
         # permuted listings: reversed and shuffled directory listing, all files in one go
         perms = [-1] + [rng.randint(1, 10 ** 6) for _ in range(6 if big else 2)]
@@ -136,6 +151,7 @@ def run(res, tier, br, model_ok=True, search=False):
                 res.report("history-dependent", f"{fam[i][0]} after {[x[0] for x in files[:k]]} under {st}: {diffdesc(want, fr)}",
                            {"kind": "history", "files": files, "index": k, "alone": want, "in_history": fr, "settings": st})
                 break
+    cli_runs(res, rng, fam, base, big)
     ref = {}
     for (name, src), b in zip(fam, base):
         res.count("alone", 1)
@@ -179,6 +195,54 @@ def run(res, tier, br, model_ok=True, search=False):
     res.sample({"history": [fam[i][0] for i in hist[0]]})
 
 
+def cli_runs(res, rng, fam, base, big):
+    """the real `main` over several files at once — the same text under several names, the same name in several
+    folders: every file gets what it gets when it is checked alone"""
+    import shutil, tempfile
+    from impl import run_cli
+    alone = {tuple(f): b["files"][0] for f, b in zip(fam, base) if "error" not in b}
+    ok = [f for f in fam if alone.get(tuple(f), {}).get("outcome") == "ok"]
+    lexical = [("esc.c", "char\t*g_s = \"a\\qb\";\n/*\n** " + "x" * 90 + "\n*/\nint\tg_i = 089;\n")]
+    for k in range(6 if big else 2):
+        d = tempfile.mkdtemp(prefix="verif_c06_")
+        try:
+            picks = rng.sample(ok, min(len(ok), 4)) + lexical
+            argv, want = [], []
+            for j, (nm, src) in enumerate(picks):
+                ext = nm[-2:]
+                for copy in range(3 if (nm, src) in lexical else rng.choice((1, 2))):
+                    sub = f"d{j}_{copy}"
+                    os.makedirs(os.path.join(d, sub), exist_ok=True)
+                    # same text under another base name (only for .c: a header's guard follows its name), or the same name in another folder
+                    fn = nm if (ext == ".h" or copy == 0) else f"copy{copy}_{nm}"
+                    open(os.path.join(d, sub, fn), "w").write(src)
+                    argv.append(os.path.join(sub, fn))
+                    want.append((nm, src, fn))
+            order = list(range(len(argv)))
+            rng.shuffle(order)
+            out = run_cli(["-f", "json"] + [argv[i] for i in order], d)
+            res.count("history.cli", 1)
+            rp = {"kind": "cli-run", "files": [[argv[i], want[i][1]] for i in order]}
+            try:
+                doc = json.loads([l for l in out["stdout"].split("\n") if l.startswith("{")][-1])
+            except Exception:
+                if out["exit"] is None or "Traceback" in out.get("stderr", ""):
+                    res.report("crash:cli", f"multi-file run failed: {out.get('stderr', '')[-200:]}", rp)
+                continue
+            for i, f in zip(order, doc["files"]):
+                nm, src, fn = want[i]
+                ref = alone.get((nm, src))
+                if ref is None and (nm, src) in lexical:
+                    ref = run_worker([[nm, src]])["files"][0]
+                    alone[(nm, src)] = ref
+                got = [[e["level"], e["name"], e["highlights"][0]["lineno"], e["highlights"][0]["column"]] for e in f["errors"]]
+                if ref is not None and ref.get("outcome") == "ok" and got != ref["diags"]:
+                    res.report("history-dependent", f"{argv[i]} in a run of {len(argv)} files: {diffdesc(ref, {'outcome': 'ok', 'diags': got})}", rp)
+                    break
+        finally:
+            shutil.rmtree(d, ignore_errors=True)
+
+
 def diffdesc(a, b):
     if a.get("outcome") != b.get("outcome"):
         return f"outcome {a.get('outcome')} vs {b.get('outcome')}"
@@ -200,6 +264,27 @@ def replay(rp):
             return 1
         print("alone     :", alone["files"][0]); print("in history:", h["files"][k])
         return 0 if alone["files"][0] == h["files"][k] else 1
+    if rp.get("kind") == "cli-run":
+        import shutil, tempfile
+        from impl import run_cli
+        d = tempfile.mkdtemp(prefix="verif_c06r_")
+        try:
+            for path, src in rp["files"]:
+                os.makedirs(os.path.join(d, os.path.dirname(path)), exist_ok=True)
+                open(os.path.join(d, path), "w").write(src)
+            out = run_cli(["-f", "json"] + [p for p, _ in rp["files"]], d)
+            doc = json.loads([l for l in out["stdout"].split("\n") if l.startswith("{")][-1])
+            bad = 0
+            for (path, src), f in zip(rp["files"], doc["files"]):
+                nm = os.path.basename(path)
+                nm = nm.split("_", 1)[1] if nm.startswith("copy") else nm
+                ref = run_worker([[nm, src]])["files"][0]
+                got = [[e["level"], e["name"], e["highlights"][0]["lineno"], e["highlights"][0]["column"]] for e in f["errors"]]
+                if ref.get("outcome") == "ok" and got != ref["diags"]:
+                    print(path, "in the run:", got); print(path, "alone     :", ref["diags"]); bad += 1
+            return 1 if bad else 0
+        finally:
+            shutil.rmtree(d, ignore_errors=True)
     if rp.get("kind") == "listing":
         a = run_worker([rp["file"]]); b = run_worker([rp["file"]], rp["seed"])
         print("default listing :", a["files"][0]); print("permuted listing:", b["files"][0])
